@@ -441,12 +441,11 @@ class C02(vlib.Driver):
                                      "sub": [_sub_json(before_init[i][n], meth), _sub_json(after_init, meth)]}
                             tr[n]["delta"] = _delta(tr[n]["sub"][0], tr[n]["sub"][1])
                             # the sub-agents of a multi-agent network list receive the same change (when they were equal)
-                            tr[n]["intra"] = None
-                            tr[n]["delta_raw"] = tr[n]["delta"]
-                            if tr[n]["delta"] is not None:
-                                d_, b_ = json.loads(tr[n]["delta"]), json.loads(tr[n]["sub"][0])
-                                if len(d_) > 1 and all(x == b_[0] for x in b_):
-                                    tr[n]["intra"] = all(x == d_[0] for x in d_)
+                            # every sub-agent network of a multi-agent list had the method applied to it (each draws its own
+                            # arguments — observed behaviour of the code, the critics mirror them index by index)
+                            attrs_ = [getattr(getattr(mm, "_orig_mod", mm), "last_mutation_attr", None) for mm in evo._modules_of(getattr(a, n))]
+                            tr[n]["applied"] = attrs_
+                            tr[n]["intra"] = None if len(attrs_) < 2 else not (attrs_[0] is not None and any(x is None for x in attrs_[1:]))
                         # a network's delta is comparable with the policy's when the entries either of them changed, and
                         # the limits, had the same values in both before the mutation (the same call on different sizes
                         # legitimately has a different effect), and its configuration is maintained at all (the encoder
@@ -712,7 +711,7 @@ class C02(vlib.Driver):
                         for n, tr in ar["trans"].items():
                             if tr.get("intra") is False:
                                 out.append(Violation("arch-follow", sig("archsubagents", (ar["method"] or "noop").split(".")[-1]),
-                                                     f"{who}: the sub-agent networks of {n} were equal before the mutation and changed differently: {str(tr.get('delta_raw'))[:200]}"))
+                                                     f"{who}: the mutation was applied to the first sub-agent network of {n} only: last_mutation_attr = {tr.get('applied')}"))
                                 break
                             if n == pol:
                                 continue
@@ -874,6 +873,7 @@ def _probe_call(m, seed):
         dim = int(np.prod(asp.shape)) if asp is not None and getattr(asp, "shape", None) else 2
         args.append(torch.rand((2, dim), generator=g))
     flags = [(sub, sub.training) for sub in torch.nn.Module.modules(m)]
+    saved = [(b, b.detach().clone()) for _, b in torch.nn.Module.named_buffers(m)]     # noise buffers are re-drawn below
     try:
         m.eval()
         torch.manual_seed(int(seed) + 99)
@@ -885,6 +885,9 @@ def _probe_call(m, seed):
     finally:
         for sub, f in flags:
             sub.training = f
+        with torch.no_grad():
+            for b, v in saved:
+                b.copy_(v)
     flat = []
 
     def walk(o):
